@@ -79,6 +79,11 @@ func (dist *GeometricDistribution) LogPdf(r Scalar, x ConstScalar) error {
     return fmt.Errorf("value `%f' is not an integer", v)
   }
 
+  if x.GetFloat64() == 0.0 {
+    // avoid 0*log(0) for p = 1
+    r.Set(dist.p1)
+    return nil
+  }
   r.Mul(x, dist.p2)
   r.Add(r, dist.p1)
 
